@@ -360,6 +360,40 @@ def r1(ctx: RuleCtx) -> None:
                 f'sources are applied in the order {[TOP_SRC.get(s, s) for s in seq]}; documented precedence (later overrides earlier) is {[TOP_SRC[s] for s in TOP_ORDER]}', fn)
     # call sites: the sources are passed in the positions the callee expects
     _call_sites(ctx, 'initialize_from_top_level_project_call', ['project', 'cmdline', 'machine'], 1)
+    _recorded_command_line(ctx)
+
+
+def _recorded_command_line(ctx: RuleCtx) -> None:
+    """on reconfigure the options given now override the ones recorded in cmd_line.txt: in the merged mapping the
+    current command line comes last"""
+    cm = ctx.repo.module(CMDLINE)
+    qn = 'read_cmd_line_file'
+    if not cm.has_func(qn):
+        raise Undecided(f'{CMDLINE}: {qn} not found')
+    fn = cm.func(qn)
+    D = 'ARG2.cmd_line_options'
+    n = 0
+    for r in S.Sym(fn).rows():
+        stores = [f for f in r.fx if f.kind == 'store' and norm(f.node[0]) == D and norm(f.node[1]) != D]
+        if not stores:
+            continue
+        if len(stores) != 1:
+            raise Undecided(f'{qn}: cmd_line_options stored {len(stores)} times on a path')
+        parts = _dict_build(r, stores[0])
+        if not parts or any(p[0] != 'spread' for p in parts) or len(parts) != 2:
+            raise Undecided(f'{qn}: merged command line built in an unknown way: {stores[0].text}')
+        texts = [norm(p[1]) for p in parts]
+        if D not in texts or texts[0] == texts[1] or D in [t for t in texts if t != D and D in t]:
+            raise Undecided(f'{qn}: merged command line built in an unknown way: {stores[0].text}')
+        n += 1
+        if texts[1] != D:
+            ctx.violation(cm, qn, stores[0].src, f'the merged mapping is built as [{short(texts[0], 60)}, then {short(texts[1], 60)}]: the recorded options come last and override the ones '
+                          f'given on the current command line; reference: recorded first, current command line last', stores[0].src, path=repr(r))
+            return
+    if n:
+        ctx.ok(f'{qn}: the current command line is merged over the recorded one ({n} paths)')
+    else:
+        raise Undecided(f'{qn}: no path stores the merged command line into options.cmd_line_options')
 
 
 ARG_KIND = [('invoker_method_default_options', 'spcall'), ('project_default_options', 'project'), ('cmd_line_options', 'cmdline'),
@@ -540,7 +574,8 @@ def r2(ctx: RuleCtx) -> None:
         if pops:
             mode = 'pop'
             present = A(f'{rekey} in {opts}')
-            sem = {is_none: 'none', projopt: 'top_project_option', present: 'present'}
+            sem = {is_none: 'none', projopt: 'top_project_option', present: 'present',
+                   A('self.is_project_option(KEY)'): 'project-option test on the key without as_root() (never true for a global key)'}
 
             def ref(v: T.Dict[str, bool]) -> T.Any:
                 if 'present' in v and not v['present']:
@@ -883,7 +918,7 @@ def _guard_rows(ctx: RuleCtx, mod: T.Any, qn: str, rows: T.List[S.SRow], fired: 
                               path=repr(r))
         elif r.outcome[0] != 'raise':
             off += 1
-            if not wrong:
+            if not wrong and not r.unentered:
                 hidden = foreign_calls(r.fx, ('set_value', 'set_option', 'reset_prefixed_options', 'validate_value'))
                 if hidden:
                     raise Undecided(f'{qn}: {what} not found on a path that calls {hidden[0].text}, which this rule cannot see into')
@@ -940,6 +975,8 @@ def r6(ctx: RuleCtx) -> None:
             t = v
             if isinstance(t, ast.Subscript) and isinstance(t.slice, ast.Constant) and isinstance(t.slice.value, int) and isinstance(t.value, ast.Subscript):
                 col, t = t.slice.value, t.value
+            elif isinstance(t, ast.Attribute) and isinstance(t.value, ast.Subscript):
+                col, t = t.attr, t.value          # a record (NamedTuple / dataclass) instead of a tuple
             if not (isinstance(t, ast.Subscript) and norm(t.slice) == NV and attr_chain(t.value)):
                 raise Undecided(f'{so.qn}: dependant value of unknown form: {norm(v)}')
             shapes[which].add((attr_chain(t.value) or '', col))
@@ -968,9 +1005,7 @@ def r6(ctx: RuleCtx) -> None:
             cls = 'OptionStore' if head and mod.has_assign(tname, mod.cls('OptionStore')) else None
             if head and cls is None:
                 raise Undecided(f'{so.qn}: {chain} is not a class-level constant')
-            tab = fold_const(ctx.repo, mod, tname, cls=cls)
-            if not isinstance(tab, dict):
-                raise Undecided(f'{tname} does not fold to a mapping')
+            tab = _fold_table(ctx, mod, tname, cls)
             try:
                 composed[which] = {k: (v[col] if col is not None else v) for k, v in tab.items()}
             except (TypeError, IndexError, KeyError):
@@ -998,7 +1033,7 @@ def r6(ctx: RuleCtx) -> None:
     for r in rows:
         if r.outcome[0] == 'raise':
             continue
-        stores = [f for f in r.fx if f.kind in ('store', 'augstore') and norm(f.node[0]) == D]
+        stores = [f for f in r.fx if f.kind in ('store', 'augstore') and norm(f.node[0]) == D and not (f.kind == 'store' and norm(f.node[1]) == D)]   # x.a = x.a changes nothing
         if has not in r.conds:
             raise Undecided(f'{qn}: a path does not test whether buildtype is on the command line: {r!r}')
         n += 1
@@ -1038,6 +1073,15 @@ def _dict_build(r: S.SRow, store: S.Fx) -> T.Optional[T.List[T.Tuple[T.Any, ...]
     v = store.node[1]
     if isinstance(v, ast.Dict):
         return display(v)
+    if isinstance(v, (ast.DictComp, ast.Call)):
+        out0: T.List[T.Tuple[T.Any, ...]] = [('spread', v)]
+        vt = norm(v)
+        for f in r.fx:
+            if f is store:
+                break
+            if f.kind == 'call' and is_call(f.node, 'update') and norm(f.node.func.value) == vt and len(f.node.args) == 1 and not f.node.keywords:
+                out0.append(('spread', f.node.args[0]))
+        return out0
     if isinstance(v, ast.Name):
         out: T.Optional[T.List[T.Tuple[T.Any, ...]]] = None
         for f in r.fx:
@@ -1054,6 +1098,41 @@ def _dict_build(r: S.SRow, store: S.Fx) -> T.Optional[T.List[T.Tuple[T.Any, ...]
                     return None
         return out
     return None
+
+
+def _fold_table(ctx: RuleCtx, mod: T.Any, tname: str, cls: T.Optional[str]) -> T.Dict[T.Any, T.Any]:
+    """a constant table; rows may be tuples or records `Rec(a, b)` / `Rec(x=a, y=b)` of a NamedTuple / dataclass of the module
+    (a record folds to a mapping field name -> value that also answers positional indices)"""
+    from ..core import AnchorMissing
+    try:
+        e = mod.assign_value(tname, mod.cls(cls) if cls else None)
+    except AnchorMissing as ex:
+        raise Undecided(str(ex))
+    if not isinstance(e, ast.Dict):
+        v = fold_expr(ctx.repo, mod, e, cls=cls)
+        if not isinstance(v, dict):
+            raise Undecided(f'{tname} does not fold to a mapping')
+        return v
+    out: T.Dict[T.Any, T.Any] = {}
+    for k, v in zip(e.keys, e.values):
+        if k is None:
+            raise Undecided(f'{tname}: ** in the table')
+        key = fold_expr(ctx.repo, mod, k, cls=cls)
+        if isinstance(v, ast.Call) and isinstance(v.func, ast.Name) and mod.has_cls(v.func.id):
+            rc = mod.cls(v.func.id)
+            fields = [st.target.id for st in rc.body if isinstance(st, ast.AnnAssign) and isinstance(st.target, ast.Name)]
+            if len(v.args) > len(fields) or any(kw.arg not in fields for kw in v.keywords):
+                raise Undecided(f'{tname}: record {norm(v)} does not match the fields {fields} of {rc.name}')
+            rec: T.Dict[T.Any, T.Any] = {}
+            for f_, a in list(zip(fields, v.args)) + [(kw.arg, kw.value) for kw in v.keywords]:
+                rec[f_] = fold_expr(ctx.repo, mod, a, cls=cls)
+            for i, f_ in enumerate(fields):
+                if f_ in rec:
+                    rec[i] = rec[f_]
+            out[key] = rec
+        else:
+            out[key] = fold_expr(ctx.repo, mod, v, cls=cls)
+    return out
 
 
 def _changed_semantics(ctx: RuleCtx, so: SetOption) -> None:
@@ -1233,7 +1312,8 @@ def r7(ctx: RuleCtx) -> None:
     ctx.ok(f'{qn}: iterates {TABLE}.items()')
     tab = S.to_table(loop_rows(sym, loop), qn + ':loop')
     newm, oldm, same = A('ARG2 in VAL'), A('ARG1 in VAL'), A(f'VAL[ARG1] == {O}.value')
-    sem = {newm: 'new prefix mapped', oldm: 'old prefix mapped', same: 'value still the old mapped default'}
+    sem = {newm: 'new prefix mapped', oldm: 'old prefix mapped', same: 'value still the old mapped default',
+           A(f'VAL[ARG2] == {O}.value'): 'value equals the NEW mapped default (old and new prefix exchanged?)'}
 
     def ref(v: T.Dict[str, bool]) -> T.Any:
         if not v['new']:
@@ -1597,6 +1677,54 @@ def r8(ctx: RuleCtx) -> None:
                 if isinstance(x, ast.Attribute) and isinstance(x.ctx, ast.Store) and x.attr == 'yielding':
                     ctx.violation(m, q, f'{norm(x)} = ...', 'the yield flag of an option is written outside options.py, bypassing the same-class parent link', x)
     ctx.ok(f'no store into .yielding outside options.py ({k} files mention it)', nontrivial=False)
+    _declared_yield_reaches_constructor(ctx, mod)
+
+
+OPTINTERP = 'mesonbuild/optinterpreter.py'
+
+
+def _declared_yield_reaches_constructor(ctx: RuleCtx, mod: T.Any) -> None:
+    """every option constructed by the option-file interpreter receives a `yielding` argument that comes from the
+    declaration (K3 must-flow + K8: the parsers of all option types agree)"""
+    from ..flow import Flow
+    fam = c07_scan.local_subclasses(mod, 'UserOption')
+    base = mod.cls('UserOption')
+    fields = [st.target.id for st in base.body if isinstance(st, ast.AnnAssign) and isinstance(st.target, ast.Name)]
+    if 'yielding' not in fields:
+        raise Undecided('UserOption has no dataclass field `yielding`')
+    idx = fields.index('yielding')
+    om = ctx.repo.module(OPTINTERP)
+    n = 0
+    for q, f in om.funcs().items():
+        fl = None
+        for st in walk_no_nested(f):
+            if not (isinstance(st, ast.Return) and isinstance(st.value, ast.Call)):
+                continue
+            c = st.value
+            name = (attr_chain(c.func) or '').split('.')[-1]
+            if name not in fam:
+                continue
+            cls = mod.cls(name)
+            if any(isinstance(x, ast.FunctionDef) and x.name == '__init__' for mm, cc in ctx.repo.mro(mod, cls) for x in cc.body if cc.name in fam):
+                raise Undecided(f'{OPTINTERP}: {q}: {name} has its own __init__')
+            if any(isinstance(a, ast.Starred) for a in c.args) or any(k.arg is None for k in c.keywords):
+                raise Undecided(f'{OPTINTERP}: {q}: {name}(...) with */** arguments')
+            arg = c.args[idx] if len(c.args) > idx else next((k.value for k in c.keywords if k.arg == 'yielding'), None)
+            n += 1
+            if arg is None:
+                ctx.violation(om, q, c, f'{name}(...) is built without a `yielding` argument (field {idx} of UserOption): the `yield:` keyword of the option declaration is dropped '
+                              f'and the option never takes the parent project\'s value', c)
+                continue
+            fl = fl or Flow(f)
+            org = fl.origins(arg)
+            if any(o.startswith('param:') for o in org):
+                ctx.ok(f'{OPTINTERP}: {q}: {name}(yielding={short(arg, 30)}) comes from the declaration')
+            elif org <= {'const'}:
+                ctx.violation(om, q, c, f'{name}(...) receives the constant {norm(arg)} as `yielding`: the `yield:` keyword of the option declaration is ignored', c)
+            else:
+                raise Undecided(f'{OPTINTERP}: {q}: origin of the yielding argument {norm(arg)} unknown: {sorted(org)}')
+    if n == 0:
+        raise Undecided(f'{OPTINTERP}: no function returns a freshly constructed option')
 
 
 # ---------------------------------------------------------------------------
